@@ -255,8 +255,9 @@ def conds(tier):
                                           P("mode", "int", 0, 3), P("wsel", "int", 0, 9), P("back", "bool")],
                        fixed={"m": m, "n": n},
                        pre=[e1_wf_expr(m, n), "_h.repr_ok(%d, %d, [%s], [%s], sf, df)" % (m, n, ipn, lpn)] +
-                       (["de == (se + mode) % 3 and wsel == (se + df + mode * 3) % 9 and back == (mode == 0)"] if q else ["wsel < 3 or mode == 0"]),
-                       shard=["sf", "df"] + ([] if q else ["se", "mode"]) + (["lp1"] if m * n >= 9 else []),
+                       (["de == (se + mode) % 3 and wsel == (se + df + mode * 3) % 9 and back == (mode == 0)"] if (q or m * n > 4) else
+                        ["wsel == (se * 3 + de + mode) % 9"]),
+                       shard=["sf", "df"] + ([] if (q or m * n > 4) else ["se", "mode"]) + (["lp1"] if m * n >= 9 else []),
                        timeout=600 if q else 3000, functions=FUNCS))
     for (m, n) in ([(2, 2)] if q else [(2, 2), (2, 3), (3, 3)]):
         ipn = ", ".join("ip%d" % i for i in range(1, m))
@@ -265,7 +266,7 @@ def conds(tier):
                        e1_params(m, n) + [P("sf", "int", 0, 4), P("df", "int", 0, 4), P("cf", "int", 0, 5), P("wsel", "int", 0, 9)],
                        fixed={"m": m, "n": n},
                        pre=[e1_wf_expr(m, n), "_h.chain_ok(%d, %d, [%s], [%s], sf, df, cf)" % (m, n, ipn, lpn)] +
-                       (["wsel == (sf + cf + 4) % 9"] if q else []),
+                       (["wsel == (sf + cf + 4) % 9"] if (q or m * n > 4) else ["wsel % 3 == 0"]),
                        shard=["sf", "df"], timeout=600 if q else 3000, functions=FUNCS))
     cs.append(Cond("argv", "harness.c03:argv", [P("sf", "int", 0, 4), P("df", "int", 0, 5), P("de", "int", 0, 3)],
                    shard=["sf"], timeout=400, functions=FUNCS[:4]))
